@@ -189,6 +189,8 @@ class Translator:
             a, t = self.expr_t(e.this, scope)
             if to in ("FLOAT", "FLOAT8", "DOUBLE", "REAL", "FLOAT4", "DOUBLE PRECISION") and t in ("int", "rat"):
                 return (f"(Expr.toRat {a})" if t == "int" else a), "rat"
+            if to in ("INT", "INTEGER", "BIGINT") and t == "bool":
+                return f"(Expr.boolToInt {a})", "int"  # TRUE -> 1, FALSE -> 0, NULL -> NULL on every dialect splink supports
             raise Untranslatable(f"cast of a {t} value to {to}")
         raise Untranslatable(f"expression {type(e).__name__}: {e.sql()[:80]}")
 
@@ -227,6 +229,18 @@ class Translator:
             raise Untranslatable("window frame specification")
         part = e.args.get("partition_by") or []
         order = e.args.get("order")
+        if isinstance(e.this, exp.RowNumber):
+            # row_number() over (partition by p... order by k [desc]): `Rel.rowNumber` (1 + number of rows of the partition strictly
+            # before this one; = SQL's numbering when the keys are distinct inside every partition, see Model/Rel.lean)
+            if g is not None:
+                raise Untranslatable("row_number() next to GROUP BY")
+            if order is None or len(order.expressions) != 1:
+                raise Untranslatable("row_number() needs exactly one ORDER BY key (none: the numbering is arbitrary)")
+            o = order.expressions[0]
+            spec = {"kind": "rownum", "part": [self.expr(p, scope) for p in part], "key": self.expr(o.this, scope), "desc": bool(o.args.get("desc"))}
+            if spec not in self._extra:
+                self._extra.append(spec)
+            return f"(Expr.col @X{self._extra.index(spec)}@)", "int"
         # the aggregate of the window ranges over the rows of the (grouped) relation
         if g is not None:
             # partition / order expressions are over the grouped row (keys); the aggregate argument too
@@ -484,6 +498,8 @@ class Translator:
                     rel = f"(Rel.window [{', '.join(x['part'])}] {x['agg']} {rel})"
                 elif x["kind"] == "cum":
                     rel = f"(Rel.windowCum {x['key']} {'true' if x['desc'] else 'false'} {x['agg']} {rel})"
+                elif x["kind"] == "rownum":
+                    rel = f"(Rel.rowNumber [{', '.join(x['part'])}] {x['key']} {'true' if x['desc'] else 'false'} {rel})"
                 else:
                     rel = f"(Rel.join false (Expr.lit (Val.bool true)) {rel} {x['rel']} 1)"
             if es is not None:
@@ -1536,8 +1552,320 @@ def write_block() -> list[str]:
     return errors
 
 
+# --------------------------------------------------------------------------------------------------------------- one-to-one clustering spec
+OTO_THR = 0.4375
+OTO_SDS = ["zzqa", "zzqb", "zzqc"]  # marker dataset names: cannot be mistaken for anything else in the SQL
+OTO_BODY = ["flags", "withFlags", "ranked", "accepted", "r", "reprNext", "__splink__df_root_rows"]
+OTO_ROLES_DOC = (
+    "loop-body role names: reprPrev = the representatives table entering the pass (`__splink__df_representatives` with 3 columns in "
+    "pass 1, `__splink__df_representatives_<k-1>` with 4 columns afterwards), nbrs = `__splink__df_neighbours`; flags, withFlags, ranked, "
+    "accepted, reprNext = `__splink__representative_contains_flags_k`, `__splink__df_representatives_with_flags_k`, `__splink__df_ranked_k`, "
+    "`__splink__df_neighbours_k`, `__splink__df_representatives_k`"
+)
+
+
+def _oto_run(dupfree, threshold):
+    """Run the real one_to_one_clustering on a path whose probabilities fall from one end (several loop passes: only the endpoint
+    of an accepted row is relabelled per pass); return the recorded pipelines."""
+    import pandas as pd
+
+    from splink import DuckDBAPI
+    from splink.internals.one_to_one_clustering import one_to_one_clustering
+
+    n = 4
+    nodes = pd.DataFrame({"nid": list(range(n)), "sd": ["zzqa", "zzqb", "zzqc", "zzqd"]})
+    edges = pd.DataFrame({"el": [3, 2, 1], "er": [2, 1, 0], "match_probability": [0.9, 0.8, 0.7]})
+    with Capture() as cap:
+        api = DuckDBAPI()
+        nt = api.register_table(nodes, "nodes_in")
+        et = api.register_table(edges, "edges_in")
+        one_to_one_clustering(nt, et, "nid", "sd", "el", "er", list(dupfree), api, threshold).as_record_dict()
+    return cap.rec
+
+
+def _oto_split(rec, errors, tag):
+    """-> (pre [(name, sql)], passes [[(role, sql)]], final (name, sql) | None) with physical names mapped to templated names and the
+    iteration index of every pass normalised to role names."""
+    pm = _phys_map(rec)
+    execs = [{"ctes": [(nm, _norm(_subst(sql, pm))) for nm, sql in e["ctes"]], "out": e["out"][0]} for e in rec]
+    pre, i = [], 0
+    while i < len(execs) and not any(nm.startswith("__splink__representative_contains_flags_") for nm, _ in execs[i]["ctes"]):
+        pre += execs[i]["ctes"]
+        i += 1
+    passes, cur, final = [], [], None
+    for ex in execs[i:]:
+        if ex["out"] == "__splink__clustering_output_final":
+            final = ex["ctes"]
+            break
+        cur += ex["ctes"]
+        if ex["out"] == "__splink__df_root_rows":
+            passes.append(cur)
+            cur = []
+    if cur:
+        errors.append(f"{tag}: statements after the last exit test that are not the final statement: {[nm for nm, _ in cur]}")
+    out = []
+    for k, body in enumerate(passes, start=1):
+        prev = "__splink__df_representatives" if k == 1 else f"__splink__df_representatives_{k - 1}"
+        m = {
+            prev: "reprPrev",
+            "__splink__df_neighbours": "nbrs",
+            f"__splink__representative_contains_flags_{k}": "flags",
+            f"__splink__df_representatives_with_flags_{k}": "withFlags",
+            f"__splink__df_ranked_{k}": "ranked",
+            f"__splink__df_neighbours_{k}": "accepted",
+            f"__splink__df_representatives_{k}": "reprNext",
+        }
+        out.append([(m.get(nm, nm), _subst(sql, m)) for nm, sql in body])
+    fin = None
+    if not final or len(final) != 1:
+        errors.append(f"{tag}: final statement not found")
+    else:
+        last = f"__splink__df_representatives_{len(passes)}"
+        if not re.search(r"(?<![A-Za-z0-9_])" + re.escape(last) + r"(?![A-Za-z0-9_])", final[0][1]):
+            errors.append(f"{tag}: the final statement does not read the table of the last pass ({last}): {final[0][1][:200]}")
+        fin = (final[0][0], _subst(final[0][1], {last: "reprLast"}))
+    return pre, out, fin
+
+
+def capture_oto():
+    """Statements of `one_to_one_clustering.py: one_to_one_clustering`, captured with 1, 2 and 3 duplicate-free datasets and a
+    threshold, and with 1 dataset and no threshold.
+    -> dict(pre, pre_nothr_first, bodies={k: [(role, sql)]}, final, errors)"""
+    errors = []
+    out = {"errors": errors, "bodies": {}}
+    runs = {k: _oto_split(_oto_run(OTO_SDS[:k], OTO_THR), errors, f"k={k}") for k in (1, 2, 3)}
+    pre0, passes0, final0 = _oto_split(_oto_run(OTO_SDS[:1], None), errors, "no threshold")
+    pre, _, final = runs[1]
+    for k, (p, passes, f) in runs.items():
+        if len(passes) < 3:
+            errors.append(f"capture run with {k} duplicate-free datasets made only {len(passes)} loop passes (need >= 3 to check that the loop body is uniform)")
+        for j, b in enumerate(passes[1:], start=2):
+            if b != passes[0]:
+                diff = [(x, y) for x, y in zip(b, passes[0]) if x != y] or [(b, passes[0])]
+                errors.append(f"loop body differs between pass 1 and pass {j} ({k} duplicate-free datasets): {str(diff[0][0])[:300]} != {str(diff[0][1])[:300]}")
+                break
+        if passes and [nm for nm, _ in passes[0]] != OTO_BODY:
+            errors.append(f"a pass issues {[nm for nm, _ in passes[0]]}, expected {OTO_BODY}")
+        if p != pre:
+            errors.append(f"the statements before the loop depend on duplicate_free_datasets: {p} != {pre}")
+        if f != final:
+            errors.append(f"the final statement depends on duplicate_free_datasets: {f} != {final}")
+        out["bodies"][k] = passes[0] if passes else []
+    if passes0 and runs[1][1] and passes0[0] != runs[1][1][0]:
+        errors.append("the loop body depends on whether a threshold is given")
+    if final0 != final:
+        errors.append("the final statement depends on whether a threshold is given")
+    if len(pre) != 2 or len(pre0) != 2 or pre0[1:] != pre[1:]:
+        errors.append(f"expected two statements before the loop, the second independent of the threshold: {pre} / {pre0}")
+    out["pre"], out["pre_nothr_first"], out["final"] = pre, (pre0[0] if pre0 else None), final
+    return out
+
+
+OTO_BASE_SCHEMAS = {"edges_in": ["el", "er", "match_probability"], "nodes_in": ["nid", "sd"]}
+OTO_BASE_TYPES = {"edges_in": ["int", "int", "any"], "nodes_in": ["int", "str"]}
+
+# The parts of a pass that depend on the NUMBER k of duplicate-free datasets (the two Python comprehensions of the loop:
+# `contains_expr` and `duplicate_criteria`, and the column offsets that the k `contains_<sd>` columns shift) as functions of the list.
+# These three definitions are the hand-written control flow; `generic_k*` below check by `rfl` that for lists of length 1, 2, 3
+# they ARE the translations of the statements captured from the real code.
+OTO_GENERIC = r"""/-- `" or ".join(...)`: the parser reads `a or b or c` as `(a or b) or c`.  The real code splices an empty list as `not ()`, a parser
+error of the engine: `[]` stands for no SQL at all. -/
+def orJoin : List Expr → Expr
+  | [] => Expr.lit (Val.bool false)
+  | e :: es => es.foldl Expr.or e
+
+/-- `contains_expr`: one `max(cast(source_dataset = '<sd>' as int))` per duplicate-free dataset (column 2 of `reprPrev` = source_dataset) -/
+def containsAggs (sds : List Val) : List Agg :=
+  sds.map fun sd => (Agg.max (Expr.boolToInt (Expr.cmp Cmp.eq (Expr.col 2) (Expr.lit sd))))
+
+/-- `… > 0 as contains_<sd>` over the aggregate columns `1 … k` of the grouped relation -/
+def containsCols (k : Nat) : List Expr :=
+  (List.range k).map fun i => (Expr.cmp Cmp.gt (Expr.col (1 + i)) (Expr.lit (Val.int (0))))
+
+/-- `__splink__representative_contains_flags_k` (representative, contains_<sd>…) -/
+def flags (sds : List Val) : Rel :=
+  (Rel.project ((Expr.col 0) :: containsCols sds.length) (Rel.groupBy [(Expr.col 1)] (containsAggs sds) (Rel.table "reprPrev")))
+
+/-- `__splink__df_representatives_with_flags_k` (node_id, source_dataset, representative, contains_<sd>…): `cf.*` are the `1 + k`
+columns after the `w` columns of `reprPrev` -/
+def withFlags (w k : Nat) : Rel :=
+  (Rel.project ([(Expr.col 0), (Expr.col 2)] ++ (List.range (1 + k)).map fun i => (Expr.col (w + i))) (Rel.join false (Expr.cmp Cmp.eq (Expr.col 1) (Expr.col w)) (Rel.table "reprPrev") (Rel.table "flags") (1 + k)))
+
+/-- `duplicate_criteria`: `(l.contains_<sd> and r.contains_<sd>)` joined by `or`; the row is `nbrs` (3 columns) ++ `l` (3 + k) ++ `r` (3 + k) -/
+def dupCriteria (k : Nat) : Expr :=
+  orJoin ((List.range k).map fun i => (Expr.and (Expr.col (6 + i)) (Expr.col (9 + k + i))))
+
+/-- `__splink__df_ranked_k` (node_id, neighbour, rank_l, rank_r) -/
+def ranked (k : Nat) : Rel :=
+  (Rel.project [(Expr.col 0), (Expr.col 1), (Expr.col (9 + 2 * k)), (Expr.col (10 + 2 * k))] (Rel.rowNumber [(Expr.col (8 + k))] (Expr.col 2) true (Rel.rowNumber [(Expr.col 5)] (Expr.col 2) true (Rel.filter (Expr.and (Expr.cmp Cmp.ne (Expr.col 5) (Expr.col (8 + k))) (Expr.not (dupCriteria k))) (Rel.join false (Expr.cmp Cmp.eq (Expr.col 1) (Expr.col (6 + k))) (Rel.join false (Expr.cmp Cmp.eq (Expr.col 0) (Expr.col 3)) (Rel.table "nbrs") (Rel.table "withFlags") (3 + k)) (Rel.table "withFlags") (3 + k))))))
+"""
+
+
+def write_oto() -> list[str]:
+    """(Re)generate Generated/OtoSql.lean from the statements `one_to_one_clustering` emits now.  Returns error strings."""
+    cap = capture_oto()
+    errors = list(cap["errors"])
+    thr_txt = repr(OTO_THR)
+    sdv = [f"sd{i}" for i in range(len(OTO_SDS))]
+    params = {thr_txt: ("thr", "any")}
+    params.update({nm: (v, "str") for nm, v in zip(OTO_SDS, sdv)})
+
+    def fresh():
+        return {k: list(v) for k, v in OTO_BASE_SCHEMAS.items()}, {k: list(v) for k, v in OTO_BASE_TYPES.items()}
+
+    schemas, types = fresh()
+    pre = _translate_seq(cap["pre"], schemas, params, errors, "pre/", types)
+    nothr = None
+    if cap.get("pre_nothr_first"):
+        s0, t0 = fresh()
+        nothr = _translate_seq([cap["pre_nothr_first"]], s0, params, errors, "pre-nothr/", t0)[0]
+    r_schema = schemas.get("__splink__df_representatives", ["node_id", "representative", "source_dataset"])
+    r_types = types.get("__splink__df_representatives", ["int", "int", "str"])
+    n_schema = schemas.get("__splink__df_neighbours", ["node_id", "neighbour", "match_probability"])
+    n_types = types.get("__splink__df_neighbours", ["int", "int", "any"])
+    # translations of the captured passes: k duplicate-free datasets x (pass 1: reprPrev has the 3 columns of the preamble's table /
+    # later passes: reprPrev is the reprNext of the pass before)
+    trans = {}
+    for k, body in cap["bodies"].items():
+        sch = {"reprPrev": list(r_schema), "nbrs": list(n_schema)}
+        typ = {"reprPrev": list(r_types), "nbrs": list(n_types)}
+        first = _translate_seq(body, sch, params, errors, f"k={k} pass 1/", typ)
+        if "reprNext" not in sch:
+            continue
+        sch2 = {"reprPrev": list(sch["reprNext"]), "nbrs": list(n_schema)}
+        typ2 = {"reprPrev": list(typ["reprNext"]), "nbrs": list(n_types)}
+        later = _translate_seq(body, sch2, params, errors, f"k={k} later pass/", typ2)
+        if sch2.get("reprNext") != sch["reprNext"]:
+            errors.append(f"schema of reprNext changes between pass 1 and later passes: {sch['reprNext']} / {sch2.get('reprNext')} (loop state is not stable)")
+        if sch["reprNext"][:len(r_schema)] != list(r_schema):
+            errors.append(f"reprNext {sch['reprNext']} does not extend the schema of the initial table {r_schema}")
+        trans[k] = (first, later)
+    final = None
+    if cap.get("final") and trans:
+        fs = {"reprLast": ["node_id", "representative", "source_dataset", "needs_updating"]}
+        final = _translate_seq([cap["final"]], fs, params, errors, "final/", {"reprLast": ["int", "int", "str", "bool"]})[0]
+
+    L = []
+    L.append("import SplinkVerif.Model.Rel")
+    L.append("/-! GENERATED by harness/translate/tsql.py from the SQL that `splink/internals/one_to_one_clustering.py: one_to_one_clustering` emits on")
+    L.append("the current tree (captured from real runs with 1, 2 and 3 duplicate-free datasets, with and without a threshold).  Do not edit.")
+    L.append("")
+    L.append("Base tables: `edges_in` (el, er, match_probability), `nodes_in` (nid, sd).  " + OTO_ROLES_DOC + ".")
+    L.append("Parameters: `thr` = the threshold literal, `sd0 sd1 sd2` = the dataset-name literals `'<sd>'` of `duplicate_free_datasets`. -/")
+    L.append("set_option linter.unusedVariables false")
+    L.append("namespace SplinkVerif.Gen.OtoSql")
+    L.append("open SplinkVerif.Rel")
+    L.append("")
+
+    def emit(lean_name, nm, term, cols, used, sql, all_params=None):
+        L.append(f"/-- `{nm}`: `{sql}` ; columns {cols} -/")
+        ps = used if all_params is None else all_params
+        args = "".join(f" ({p} : Val)" for p in ps)
+        if term is None:
+            L.append(f"-- UNTRANSLATABLE: {nm}")
+            return None
+        L.append(f"def {lean_name}{args} : Rel :=\n  {term}")
+        L.append("")
+        return lean_name + ("".join(f" {p}" for p in ps))
+
+    pre_calls = []
+    for nm, term, cols, used, sql in pre:
+        c = emit(_ident(nm), nm, term, cols, used, sql)
+        if c:
+            pre_calls.append((nm, c, used))
+    if nothr:
+        nm, term, cols, used, sql = nothr
+        emit(_ident(nm) + "NoThr", nm, term, cols, used, sql)
+    if len(pre_calls) == 2 and nothr and nothr[1] is not None and pre_calls[0][2] == ["thr"] and pre_calls[1][2] == []:
+        L.append("/-- the statements before the loop, in the order the code issues them (`thr = none`: no WHERE clause) -/")
+        L.append("def preamble (thr : Option Val) : List Stmt :=")
+        L.append(f"  [⟨{lean_str(pre_calls[0][0])}, match thr with | some thr => {_ident(pre_calls[0][0])} thr | none => {_ident(pre_calls[0][0])}NoThr⟩, ⟨{lean_str(pre_calls[1][0])}, {pre_calls[1][1]}⟩]")
+        L.append("")
+    else:
+        errors.append("preamble: expected exactly (neighbours taking the threshold, representatives taking nothing)")
+
+    # --- translations of the captured passes
+    ok = True
+    kdep = ("flags", "withFlags", "ranked")
+    for k in sorted(trans):
+        first, later = trans[k]
+        ps = sdv[:k]
+        L.append(f"/-! ### the pass as captured with duplicate_free_datasets = {OTO_SDS[:k]} -/")
+        L.append(f"namespace K{k}")
+        for tag, seq in (("first", first), ("later", later)):
+            calls = []
+            for nm, term, cols, used, sql in seq:
+                if [u for u in used if u not in ps]:
+                    errors.append(f"k={k} {tag}/{nm}: unexpected parameters {used}")
+                c = emit(tag + _ident(nm)[:1].upper() + _ident(nm)[1:], nm, term, cols, used, sql, all_params=ps)
+                if c:
+                    calls.append((nm, c))
+            if len(calls) == len(seq) == len(OTO_BODY):
+                L.append(f"/-- {'pass 1 (reprPrev = the 3-column table of the preamble)' if tag == 'first' else 'a later pass (reprPrev = reprNext of the pass before, 4 columns)'} -/")
+                L.append(f"def {tag}{''.join(f' ({p} : Val)' for p in ps)} : List Stmt :=")
+                L.append("  [" + ", ".join(f"⟨{lean_str(nm)}, {c}⟩" for nm, c in calls) + "]")
+                L.append("")
+            else:
+                ok = False
+        L.append(f"end K{k}")
+        L.append("")
+    if set(trans) != {1, 2, 3}:
+        ok = False
+    # --- statements that do not depend on the number of datasets: one definition each, taken from the k = 1 translation
+    if ok:
+        f1, l1 = trans[1]
+        for k in (2, 3):
+            for tag, a, b in (("pass 1", f1, trans[k][0]), ("later pass", l1, trans[k][1])):
+                for x, y in zip(a, b):
+                    if x[0] not in kdep and x[1] != y[1]:
+                        errors.append(f"statement {x[0]} ({tag}) depends on the number of duplicate-free datasets: {x[1]} / {y[1]}")
+                        ok = False
+        for x, y in zip(f1, l1):
+            if x[0] in ("flags", "ranked", "accepted", "__splink__df_root_rows") and x[1] != y[1]:
+                errors.append(f"statement {x[0]} differs between pass 1 and later passes: {x[1]} / {y[1]}")
+                ok = False
+    if ok:
+        byname_f = {x[0]: x for x in trans[1][0]}
+        byname_l = {x[0]: x for x in trans[1][1]}
+        L.append("/-! ### the pass for ANY list of duplicate-free datasets -/")
+        L.append("")
+        L.append(OTO_GENERIC)
+        for nm, lean_name in (("accepted", "accepted"), ("__splink__df_root_rows", "rootRows")):
+            _, term, cols, used, sql = byname_f[nm]
+            emit(lean_name, nm, term, cols, used, sql)
+        for nm in ("r", "reprNext"):
+            for tag, by in (("First", byname_f), ("Later", byname_l)):
+                _, term, cols, used, sql = by[nm]
+                emit(_ident(nm) + tag, f"{nm} ({'pass 1' if tag == 'First' else 'later passes'})", term, cols, used, sql)
+        L.append("/-- one pass of the `while` loop, reading `reprPrev`, `nbrs`; `first`: pass 1 -/")
+        L.append("def body (first : Bool) (sds : List Val) : List Stmt :=")
+        L.append('  [⟨"flags", flags sds⟩, ⟨"withFlags", withFlags (if first then 3 else 4) sds.length⟩, ⟨"ranked", ranked sds.length⟩, ⟨"accepted", accepted⟩,')
+        L.append('   ⟨"r", if first then rFirst else rLater⟩, ⟨"reprNext", if first then reprNextFirst else reprNextLater⟩, ⟨"__splink__df_root_rows", rootRows⟩]')
+        L.append("")
+        L.append("/-! For lists of length 1, 2, 3 the generic pass IS the translation of the captured SQL. -/")
+        for k in (1, 2, 3):
+            ps = sdv[:k]
+            binder = "".join(f" ({p} : Val)" for p in ps)
+            lst = "[" + ", ".join(ps) + "]"
+            L.append(f"theorem generic_k{k}_first{binder} : body true {lst} = K{k}.first {' '.join(ps)} := rfl")
+            L.append(f"theorem generic_k{k}_later{binder} : body false {lst} = K{k}.later {' '.join(ps)} := rfl")
+        L.append("")
+    if final:
+        nm, term, cols, used, sql = final
+        emit("finalStmt", nm + " (reprLast = the table of the last pass)", term, cols, used, sql)
+    L.append("/-- names of the statements of one pass, as emitted -/")
+    L.append("def bodyNames : List String := [" + ", ".join(lean_str(nm) for nm in OTO_BODY) + "]")
+    L.append("")
+    L.append("end SplinkVerif.Gen.OtoSql")
+    text = "\n".join(L) + "\n"
+    p = GEN / "OtoSql.lean"
+    if not p.exists() or p.read_text() != text:
+        p.write_text(text)
+    return errors
+
+
 # --------------------------------------------------------------------------------------------------------------- isolation
-WRITERS = {"cc": "write_cc", "multi": "write_multi", "gm": "write_gm", "acc": "write_acc", "desc": "write_desc", "em": "write_em", "block": "write_block"}
+WRITERS = {"cc": "write_cc", "multi": "write_multi", "gm": "write_gm", "acc": "write_acc", "desc": "write_desc", "em": "write_em", "block": "write_block", "oto": "write_oto"}
 
 
 def run_isolated(which: str, timeout: int = 600) -> list[str]:
@@ -1569,6 +1897,5 @@ if __name__ == "__main__":
     import sys
 
     which = sys.argv[1] if len(sys.argv) > 1 else "cc"
-    errs = {"cc": write_cc, "multi": write_multi, "gm": write_gm, "acc": write_acc, "desc": write_desc, "em": write_em, "block": write_block}[which]()
+    errs = globals()[WRITERS[which]]()
     print("\n".join(errs) or "ok")
-    print((GEN / {"cc": "CCSql.lean", "multi": "MultiSql.lean", "gm": "GMSql.lean", "acc": "AccSql.lean", "desc": "DescSql.lean", "em": "EMSql.lean", "block": "BlockSql.lean"}[which]).read_text()[:12000])
